@@ -405,6 +405,12 @@ class HGen:
         self.names += 1
         return self.names
 
+    def sid(self, s):
+        """the library id of a substance found in a container; by its fields, else by its name (a substance whose fields were altered
+        by a call is reported by the watch -- the generator must not stop on it)"""
+        k = self.im.d.bykey.get((s.name, s.specific_activity, s.mol_weight, s.density))
+        return k if k is not None else self.im.d.byname[s.name]
+
     def emit(self, op, tag, operands=()):
         n_before = len(self.im.vars)
         o, f = self.im.step(op)
@@ -644,7 +650,7 @@ class HGen:
         if not sol or c.volume <= 0:
             return
         solute = self.rng.choice(sol)
-        sid = self.im.d.bykey[(solute.name, solute.specific_activity, solute.mol_weight, solute.density)]
+        sid = self.sid(solute)
         solvent = self.rng.choice([x for x in self.liquids if x != sid] or [None])
         if solvent is None:
             return
@@ -666,8 +672,8 @@ class HGen:
         if not sol or not liq or c.volume < 2000:
             return
         solute = self.rng.choice(sol)
-        sid = self.im.d.bykey[(solute.name, solute.specific_activity, solute.mol_weight, solute.density)]
-        lid = self.im.d.bykey[(liq[0].name, liq[0].specific_activity, liq[0].mol_weight, liq[0].density)]
+        sid = self.sid(solute)
+        lid = self.sid(liq[0])
         cur = c.contents[solute] / c.volume
         f = self.rng.choice([0.2, 0.5, 2.0])
         q = gen.pick_qty(self.rng, c.volume * 0.1 / 1e6, 'L', sig=2, down=True)
